@@ -10,6 +10,7 @@ namespace Fact
 /-- pcs at which the thread holds the cache lock -/
 def inLocked : Pc → Bool
   | .xTouch | .xLen | .xEvict | .xRel => true
+  | .lGet | .lTest | .lAlloc | .lInit | .lSdRead | .lSdWrite => true
   | .gGet | .gTest | .gAlloc | .gInit | .gCheck | .gStore | .gRelE => true
   | .sSet | .sLoop | .sPop | .sRel => true
   | .cWeak | .cStrong | .cRel => true
@@ -17,7 +18,7 @@ def inLocked : Pc → Bool
 
 /-- which factory kind can be at a pc -/
 def kindOK (kd : Kind) : Pc → Prop
-  | .lGet | .lTest | .lAlloc | .lInit | .lSetdef | .lAcq => kd = .lru
+  | .lAcq | .lGet | .lTest | .lAlloc | .lInit | .lSdRead | .lSdWrite => kd = .lru
   | .xTouch | .xLen | .xEvict | .xRel | .xRet => kd ≠ .single
   | .gAcq | .gGet | .gTest | .gAlloc | .gInit | .gCheck | .gStore | .gRelE | .gRetE => kd = .gettz
   | .sAcq | .sSet | .sLoop | .sPop | .sRel => kd = .gettz
@@ -27,10 +28,14 @@ def kindOK (kd : Kind) : Pc → Prop
 
 def pcInv (res : Key → Res) (g : Glob) (th : Thread) : Prop :=
   match th.pc with
-  | .lTest => ∀ i, th.inst = some i → g.weak th.key = some i
-  | .lInit => ∃ i, th.tmp = some i
-  | .lSetdef => ∃ i, th.tmp = some i ∧ i ∈ g.inited
-  | .lAcq => ∃ i, th.inst = some i ∧ g.weak th.key = some i
+  | .lGet => g.strong.length ≤ g.cap
+  | .lTest => (∀ i, th.inst = some i → g.weak th.key = some i) ∧ (th.inst = none → g.weak th.key = none)
+                ∧ g.strong.length ≤ g.cap
+  | .lAlloc => g.weak th.key = none ∧ g.strong.length ≤ g.cap
+  | .lInit => g.weak th.key = none ∧ g.strong.length ≤ g.cap ∧ ∃ i, th.tmp = some i
+  | .lSdRead => g.weak th.key = none ∧ g.strong.length ≤ g.cap ∧ ∃ i, th.tmp = some i ∧ i ∈ g.inited
+  | .lSdWrite => g.weak th.key = none ∧ g.strong.length ≤ g.cap ∧ (∃ i, th.tmp = some i ∧ i ∈ g.inited)
+                  ∧ th.seen = none
   | .xTouch => (∃ i, th.inst = some i ∧ g.weak th.key = some i) ∧ g.strong.length ≤ g.cap
   | .xLen => (∃ i, th.inst = some i ∧ g.weak th.key = some i) ∧ g.strong.length ≤ g.cap + 1
   | .xEvict => (∃ i, th.inst = some i ∧ g.weak th.key = some i) ∧ g.strong.length ≤ g.cap + 1 ∧ g.strong ≠ []
@@ -59,6 +64,7 @@ structure TI (kd : Kind) (res : Key → Res) (t : Tid) (g : Glob) (th : Thread) 
   kind : kindOK kd th.pc
   instLt : ∀ i, th.inst = some i → i < g.next
   tmpLt : ∀ i, th.tmp = some i → i < g.next
+  seenLt : ∀ i, th.seen = some i → i < g.next
   pc : pcInv res g th
 
 structure GI (kd : Kind) (g : Glob) : Prop where
@@ -75,7 +81,7 @@ structure GI (kd : Kind) (g : Glob) : Prop where
 
 /-- what a step of thread `t` guarantees to every other thread -/
 structure Guar (kd : Kind) (t : Tid) (g g' : Glob) : Prop where
-  weak : ∀ k, g'.weak k = g.weak k ∨ (g.weak k = none ∧ (kd = .lru ∨ g.lock = some t)) ∨ (kd = .gettz ∧ g.lock = some t)
+  weak : ∀ k, g'.weak k = g.weak k ∨ (g.weak k = none ∧ g.lock = some t) ∨ (kd = .gettz ∧ g.lock = some t)
   noLock : g.lock ≠ some t → g'.strong = g.strong ∧ g'.cap = g.cap ∧ g'.epoch = g.epoch ∧
             (g'.lock = g.lock ∨ (g.lock = none ∧ g'.lock = some t))
   hasLock : g.lock = some t → (g'.lock = some t ∨ g'.lock = none)
